@@ -175,6 +175,14 @@ def blind_alignment_restores_order(aligner, metric, algorithm, cfg, base, perm):
         bad = [f for f in range(F) if not np.array_equal(net[:, f], net[:, 0])]
         return Fail(f'order-not-constant-{aligner}', f'{aligner}/{metric}/{algorithm}: bins {bad[:6]} keep another class order '
                     f'(net {net[:, bad[0]].tolist()} vs {net[:, 0].tolist()})')
+    # the documented way to use an aligner is to CALL it: the returned masks must show that one class order in every bin
+    aligned = np.asarray(al(mask.copy(order='K')))
+    want = base[net[:, 0]]
+    if aligned.shape != want.shape or not np.array_equal(aligned, want):
+        bad = [f for f in range(F) if aligned.shape != want.shape or not np.array_equal(aligned[:, f], want[:, f])]
+        return Fail(f'call-result-not-consistent-{aligner}',
+                    f'{aligner}/{metric}/{algorithm}: aligner(mask) does not return the masks in the one class order its '
+                    f'own mapping establishes (bins {bad[:6]} differ)')
     ident = al.calculate_mapping(base.copy(order='K'))
     if not np.array_equal(ident, np.repeat(np.arange(K)[:, None], F, 1)):
         return Fail(f'consistent-mask-not-identity-{aligner}', f'{aligner}/{metric}/{algorithm}: consistent mask mapped to {ident[:, :4].tolist()}...')
